@@ -1,25 +1,30 @@
 (* golang.org/x/text's norm.NFKD.String is modelled as ANY function meeting this
-   contract (measured of x/text and re-validated on every run by the K stream):
-   it is UAX #15 NFKD on strings whose normal form has no run of more than 30
-   modifiers (xsafe); elsewhere its output contains U+034F and keeps the number
-   of 0x20 bytes.  Theorems quantify over every such function; nothing is an axiom. *)
+   contract (measured of x/text and re-validated on every run by the K stream).
+   On VALID UTF-8 it is UAX #15 NFKD on strings whose normal form has no run of
+   more than 30 modifiers (xsafe); elsewhere on valid UTF-8 its output contains
+   U+034F; it keeps the number of 0x20 bytes.  On INVALID UTF-8 nothing is claimed
+   about what it computes (x/text does not decompose every character that follows a
+   stray lead byte such as 0xF5: found by the K stream) except that the output is
+   not valid UTF-8 either.  Theorems quantify over every such function; nothing is an axiom. *)
 From B39 Require Import Lib.Base Lib.Utf8 Lib.Nfkd.
 
 Definition count_sp (s : list byte) : nat := length (filter (fun b => Byte.eqb b x20) s).
 
 Record lib_contract (lib : list byte -> list byte) : Prop := {
-  LC1 : forall s, xsafe s = true -> lib s = nfkd s;
-  LC2 : forall s, xsafe s = false -> has_cgj (lib s) = true;
-  LC3 : forall s, count_sp (lib s) = count_sp (nfkd s)
+  LC1 : forall s, utf8_valid s = true -> xsafe s = true -> lib s = nfkd s;
+  LC2 : forall s, utf8_valid s = true -> xsafe s = false -> has_cgj (lib s) = true;
+  LC3 : forall s, utf8_valid s = true -> count_sp (lib s) = count_sp (nfkd s);
+  LC4 : forall s, utf8_valid s = false -> utf8_valid (lib s) = false
 }.
 
 (* the contract is satisfiable: a function that behaves like the measured library *)
-Definition lib_example (s : list byte) : list byte := if xsafe s then nfkd s else [xcd; x8f] ++ nfkd s.
+Definition lib_example (s : list byte) : list byte :=
+  if utf8_valid s then (if xsafe s then nfkd s else [xcd; x8f] ++ nfkd s) else s.
 Example lib_example_contract : lib_contract lib_example.
 Proof.
   split; intros s; unfold lib_example.
-  - intros H. rewrite H. reflexivity.
-  - intros H. rewrite H. reflexivity.
-  - destruct (xsafe s); reflexivity.
+  - intros V H. rewrite V, H. reflexivity.
+  - intros V H. rewrite V, H. reflexivity.
+  - intros V. rewrite V. destruct (xsafe s); reflexivity.
+  - intros V. rewrite V. exact V.
 Qed.
-
